@@ -541,7 +541,11 @@ def run_property(pid, P, cases, tier, seed, replay=False, boost=1):
         if flavour.endswith('-weak'):
             # all hash values collide: every lookup is a linear search, so only the small cases (the
             # judge runs the full model on them) take part
-            fcases = [c for c in cases if c[0].split()[-1] not in ('long', 'perf', 'hostile') and sum(len(l) for l in c) < 20000]
+            # (a case whose plain run was already big - exponential forests, finding D31 - would need more
+            # than 2^31 probes: the size of its plain observation stream is the measure)
+            plain = obs_by_flavour.get(flavour[:-5], {})
+            fcases = [c for c in cases if c[0].split()[-1] not in ('long', 'perf', 'hostile') and sum(len(l) for l in c) < 20000
+                      and len(plain.get(c[0].split()[1], [])) < 5000]
         res = pipeline.run_cases(fcases, flavour, kind=P.get('kind', 'yaep'))
         bycase = {}
         obs_by_flavour[flavour] = res.obs
